@@ -330,11 +330,18 @@ func newPartyKeys(firstID int) []*key {
 type vdrStub struct {
 	docs map[string]*did.Doc
 	park *parker
+	real interface {
+		Read(string, ...vdr.DIDMethodOption) (*did.DocResolution, error)
+	} // the real did:key resolver of /repo
 }
 
 func (r *vdrStub) Resolve(d string, _ ...vdr.DIDMethodOption) (*did.DocResolution, error) {
 	if r.park != nil {
 		r.park.maybePark(d)
+	}
+
+	if r.real != nil && strings.HasPrefix(d, "did:key:") {
+		return r.real.Read(d)
 	}
 
 	doc, ok := r.docs[d]
